@@ -153,7 +153,7 @@ def cellLt (a b : Option Int) : Bool := !cellLe b a
 def cellsLe : List (Option Int) → List (Option Int) → Bool
   | [], _ => true
   | _ :: _, [] => false
-  | a :: as, b :: bs => if cellLt a b then true else if cellLt b a then false else cellsLe as bs
+  | a :: as, b :: bs => cellLt a b || (!cellLt b a && cellsLe as bs)
 
 /-- the selected columns in name order (= column order). -/
 def colsByName (cols : List Col) : List Col :=
@@ -178,10 +178,13 @@ def Query.selRow (q : Query) (r : Row) : OutRow := ⟨some r.t, q.cols.map (fun 
 def Query.selKeeps (q : Query) (r : Row) : Bool :=
   q.ff.isSome || q.cols.any (fun c => (r.cell c).isSome)
 
-/-- rows of one group of a selection, in the statement's order. -/
-def Query.evalSel (q : Query) (rows : List Row) : List OutRow :=
+/-- rows of one group of a selection, in the statement's order: the answer rows, each with its
+sort key, are sorted (rows with equal keys are equal answer rows). -/
+def Query.evalSelA (q : Query) (asc : Bool) (rows : List Row) : List OutRow :=
   let kept := rows.filter q.selKeeps
-  (sortBy (fun a b => selLe q.asc (selKey q.cols a) (selKey q.cols b)) kept).map q.selRow
+  (sortBy (fun a b => selLe asc a.1 b.1) (kept.map (fun r => (selKey q.cols r, q.selRow r)))).map (·.2)
+
+def Query.evalSel (q : Query) (rows : List Row) : List OutRow := q.evalSelA q.asc rows
 
 /-! ### aggregates -/
 
@@ -272,7 +275,7 @@ def Query.bucketRows (q : Query) (rows : List Row) : List Int → List Val → L
       ⟨some b, vals⟩ :: q.bucketRows rows bs vals
 
 /-- rows of one group of an aggregate statement, in the statement's order. -/
-def Query.evalAgg (q : Query) (rows : List Row) : List OutRow :=
+def Query.evalAggA (q : Query) (asc : Bool) (rows : List Row) : List OutRow :=
   match rows with
   | [] => []
   | _ =>
@@ -290,24 +293,33 @@ def Query.evalAgg (q : Query) (rows : List Row) : List OutRow :=
       | some lo, some hi =>
         -- a group none of whose calls has a value anywhere in range is not returned
         if (q.callVals rows).all (fun x => x.1 == .null) then []
-        else q.bucketRows rows (bucketStarts q.interval lo hi q.asc) (q.calls.map (fun _ => Val.null))
+        else q.bucketRows rows (bucketStarts q.interval lo hi asc) (q.calls.map (fun _ => Val.null))
       | _, _ => []
+
+def Query.evalAgg (q : Query) (rows : List Row) : List OutRow := q.evalAggA q.asc rows
 
 /-! ### the statement -/
 
+/-- `SingleRowIgnoreTagLimitHelper`: rows `offset+1 … offset+limit`; without LIMIT and OFFSET the
+operator is not in the plan. (OFFSET without LIMIT is outside the subset: the counter passes
+`offset + 0` at once.) -/
 def applyLimit (limit offset : Nat) (rows : List OutRow) : List OutRow :=
-  let r := rows.drop offset
-  if limit == 0 then r else r.take limit
+  if limit == 0 && offset == 0 then rows else (rows.drop offset).take limit
 
-def Query.evalGroup (q : Query) (rows : List Row) : List OutRow :=
-  applyLimit q.limit q.offset (if q.agg then q.evalAgg rows else q.evalSel rows)
+/-- the statement in direction `asc` (the field `q.asc` is not read). -/
+def Query.evalGroupA (q : Query) (asc : Bool) (rows : List Row) : List OutRow :=
+  applyLimit q.limit q.offset (if q.agg then q.evalAggA asc rows else q.evalSelA asc rows)
 
-def eval (q : Query) (db : Db) : Result :=
+def evalA (q : Query) (asc : Bool) (db : Db) : Result :=
   let rows := db.filter q.keep
   let keys := distinctSorted (rows.map (fun r => groupKey q.grp r.s))
-  let keys := if q.asc then keys else keys.reverse
+  let keys := if asc then keys else keys.reverse
   keys.filterMap (fun k =>
-    let out := q.evalGroup (rows.filter (fun r => groupKey q.grp r.s == k))
+    let out := q.evalGroupA asc (rows.filter (fun r => groupKey q.grp r.s == k))
     if out.isEmpty then none else some (k, out))
+
+def Query.evalGroup (q : Query) (rows : List Row) : List OutRow := q.evalGroupA q.asc rows
+
+def eval (q : Query) (db : Db) : Result := evalA q q.asc db
 
 end OG.C08
